@@ -157,6 +157,19 @@ var skolemCtr atomic.Int64
 // skolemizeGoal replaces positive single-variable Int foralls of the goal by fresh constants.
 func skolemizeGoal(g *Term) (*Term, []*Term) {
 	var sks []*Term
+	for round := 0; round < 6; round++ {
+		r, more := skolemizeOnce(g)
+		if len(more) == 0 {
+			break
+		}
+		g = r
+		sks = append(sks, more...)
+	}
+	return g, sks
+}
+
+func skolemizeOnce(g *Term) (*Term, []*Term) {
+	var sks []*Term
 	r := mapPos(g, true, func(q *Term) *Term {
 		nv, _, _ := isForall(q)
 		m := map[*Term]*Term{}
@@ -173,12 +186,15 @@ func skolemizeGoal(g *Term) (*Term, []*Term) {
 const maxInstances = 240
 
 // instances returns instantiations of the quantified assumptions among facts.
-func instances(facts []*Term, goal *Term, extra []*Term) []*Term {
+func instances(facts []*Term, goal *Term, extra []*Term, also ...*Term) []*Term {
 	cands := map[*Term]bool{}
 	bound := map[*Term]bool{}
 	seen := map[*Term]bool{}
 	indexTerms(goal, cands, seen, bound)
 	for _, f := range facts {
+		indexTerms(f, cands, seen, bound)
+	}
+	for _, f := range also {
 		indexTerms(f, cands, seen, bound)
 	}
 	for _, e := range extra {
@@ -368,7 +384,39 @@ func groundTerms(ts []*Term, idx map[string][]*Term, seen map[*Term]bool, defs m
 const maxGroundInstances = 600
 
 // groundFacts returns the quantifier-free replacement of facts for goal.
-func groundFacts(facts []*Term, goal *Term, extra []*Term) []*Term {
+// skolemizeFact replaces existential quantifiers of an assumed formula (universal quantifiers in
+// negative position) by fresh constants. The result is equisatisfiable, which is all a refutation needs.
+func skolemizeFact(t *Term) (*Term, []*Term) {
+	var sks []*Term
+	r := mapNeg(t, func(q *Term) *Term {
+		nv, _, _ := isForall(q)
+		m := map[*Term]*Term{}
+		for i := 0; i < nv; i++ {
+			sk := Var(fmt.Sprintf("skf!%d", skolemCtr.Add(1)), q.Args[i].S)
+			sks = append(sks, sk)
+			m[q.Args[i]] = sk
+		}
+		return Subst(q.Args[nv], m)
+	})
+	return r, sks
+}
+
+func groundFacts(facts []*Term, goal *Term, extra []*Term) ([]*Term, []*Term) {
+	// existential facts get witnesses (which then serve as instantiation candidates)
+	{
+		nf := make([]*Term, len(facts))
+		cf := map[*Term]bool{}
+		for i, f := range facts {
+			// an equivalence with a quantified side is split into its two implications first
+			f = splitIff(f, cf)
+			// only at top level (not under a universal quantifier, where a witness would depend on it)
+			g, sks := skolemizeFact(f)
+			nf[i] = g
+			extra = append(extra, sks...)
+		}
+		facts = nf
+	}
+	newSk := append([]*Term{}, extra...)
 	fc := map[*Term]bool{}
 	var out []*Term
 	var quant []*Term
@@ -421,6 +469,12 @@ func groundFacts(facts []*Term, goal *Term, extra []*Term) []*Term {
 		if containsForall(t, fc) {
 			t = discharge(t)
 		}
+		if containsForall(t, fc) {
+			// existentials inside an instance get their own witnesses
+			var sks []*Term
+			t, sks = skolemizeFact(t)
+			newSk = append(newSk, sks...)
+		}
 		if t == True || dedup[t] || containsForall(t, fc) {
 			return false
 		}
@@ -429,9 +483,70 @@ func groundFacts(facts []*Term, goal *Term, extra []*Term) []*Term {
 		n++
 		return true
 	}
-	for _, t := range instances(quant, goal, extra) {
-		// nested quantifiers left in an instance are weakened away
+	first := instances(quant, goal, extra, out...)
+	// second round: quantifiers nested inside an instance (and quantifiers over non-index variables,
+	// e.g. map keys) are instantiated at the goal's skolem constants
+	var second []*Term
+	if len(extra) > 0 {
+		for _, t := range append(append([]*Term{}, first...), quant...) {
+			has := false
+			mapPos(t, true, func(q *Term) *Term { has = true; return nil })
+			if !has {
+				continue
+			}
+			// every combination: one positive quantifier at a time, each with every skolem
+			var expand func(t *Term, depth int)
+			expand = func(t *Term, depth int) {
+				if depth > 3 || len(second) > 400 {
+					return
+				}
+				for _, sk := range extra {
+					done := false
+					inst := mapPos(t, true, func(q *Term) *Term {
+						nv, _, _ := isForall(q)
+						if done || nv != 1 || q.Args[0].S != sk.S {
+							return nil
+						}
+						done = true
+						return Subst(q.Args[1], map[*Term]*Term{q.Args[0]: sk})
+					})
+					if inst != t {
+						second = append(second, inst)
+						expand(inst, depth+1)
+					}
+				}
+			}
+			expand(t, 0)
+		}
+	}
+	nsk0 := len(newSk)
+	for _, t := range append(first, second...) {
+		// quantifiers still left in an instance are weakened away
 		add(mapPos(t, true, func(q *Term) *Term { return True }))
+	}
+	// witnesses introduced while adding instances are instantiation candidates too (one more round)
+	if late := newSk[nsk0:]; len(late) > 0 && len(late) <= 12 {
+		late = append([]*Term{}, late...)
+		var third []*Term
+		for _, t := range quant {
+			for _, sk := range late {
+				done := false
+				inst := mapPos(t, true, func(q *Term) *Term {
+					nv, _, _ := isForall(q)
+					if done || nv != 1 || q.Args[0].S != sk.S {
+						return nil
+					}
+					done = true
+					return Subst(q.Args[1], map[*Term]*Term{q.Args[0]: sk})
+				})
+				if inst != t {
+					third = append(third, inst)
+				}
+			}
+		}
+		for _, t := range third {
+			add(mapPos(t, true, func(q *Term) *Term { return True }))
+		}
 	}
 	idx := map[string][]*Term{}
 	seen := map[*Term]bool{}
@@ -471,7 +586,7 @@ func groundFacts(facts []*Term, goal *Term, extra []*Term) []*Term {
 						if add(inst) {
 							fresh = append(fresh, inst)
 							if n >= maxGroundInstances {
-								return out
+								return out, newSk
 							}
 						}
 					}
@@ -483,7 +598,7 @@ func groundFacts(facts []*Term, goal *Term, extra []*Term) []*Term {
 		}
 		groundTerms(fresh, idx, seen, defs)
 	}
-	return out
+	return out, newSk
 }
 
 // underlying lists the maps a read of arr may fall through to.
@@ -594,4 +709,42 @@ func mapNeg(t *Term, f func(q *Term) *Term) *Term {
 		return t
 	}
 	return rec(t, true)
+}
+
+// splitIff rewrites Boolean equalities that have a quantified side into two implications, so that
+// each quantifier occurrence has a definite polarity.
+func splitIff(t *Term, cf map[*Term]bool) *Term {
+	if !containsForall(t, cf) {
+		return t
+	}
+	switch t.Op {
+	case "and", "or", "=>", "not":
+		args := make([]*Term, len(t.Args))
+		ch := false
+		for i, a := range t.Args {
+			args[i] = splitIff(a, cf)
+			ch = ch || args[i] != a
+		}
+		if !ch {
+			return t
+		}
+		switch t.Op {
+		case "and":
+			return And(args...)
+		case "or":
+			return Or(args...)
+		case "not":
+			return Not(args[0])
+		}
+		if len(args) == 2 {
+			return Implies(args[0], args[1])
+		}
+		return t
+	case "=":
+		if len(t.Args) == 2 && t.Args[0].S == BoolS {
+			a, b := splitIff(t.Args[0], cf), splitIff(t.Args[1], cf)
+			return And(Implies(a, b), Implies(b, a))
+		}
+	}
+	return t
 }
